@@ -242,8 +242,14 @@ package ftp
 // The listener opened for PASV/EPSV is remembered by the socket; the acceptor goroutine closes it after
 // the one data connection (or the failure to accept one), and Close closes it as well, which ends an
 // acceptor still waiting. lclosed is the ghost "Close has been called" of net.Listener.
+// The wait for the client's data connection is bounded: an accept deadline is set on the listener before
+// the acceptor is started (naccdl counts the calls of SetDeadline, a ghost counter kept by the verifier).
+//@ ghost var naccdl int
 //@ func (*ftpPassiveSocket).GoListenAndServe
+//@   callcount SetDeadline: naccdl
+//@   physical 0 <= naccdl && naccdl < 1<<48
 //@   ensures [remembered] err == nil ==> socket.listener != nil
+//@   ensures [accept-bounded] err == nil ==> naccdl == old(naccdl) + 1
 //@   modifies *
 //@ func (*ftpPassiveSocket).Close
 //@   check safety
